@@ -23,6 +23,7 @@ func NewConnection(c net.Conn, outgoing bool) *Connection {
 		peerData: &PeerData{},
 		Time:     time.Now(),
 		alive:    1,
+		done:     make(chan struct{}),
 	}
 	go conn.Writer()
 	return conn
@@ -30,8 +31,10 @@ func NewConnection(c net.Conn, outgoing bool) *Connection {
 
 func (c *Connection) Writer() {
 	for {
-		pack, ok := <-c.data.WriteChan
-		if !ok {
+		var pack pack
+		select {
+		case pack = <-c.data.WriteChan:
+		case <-c.done:
 			return
 		}
 		err := c.sendPacketLock(pack)
@@ -46,7 +49,8 @@ func (c *Connection) Writer() {
 func (c *Connection) Close() {
 	if atomic.SwapInt32(&c.alive, 0) == 1 {
 		c.mut.Lock()
-		close(c.data.WriteChan)
+		// WriteChan is never closed: SendPacket may be sending on it from any goroutine
+		close(c.done)
 		c.data.Conn.Close()
 		c.mut.Unlock()
 	}
@@ -57,6 +61,7 @@ type Connection struct {
 	peerData *PeerData
 	Time     time.Time // when the connection was started
 	alive    int32     // Use atomic for alive flag
+	done     chan struct{} // closed by Close: stops the writers
 	mut      util.RWMutex
 	pdMut    util.Mutex
 }
